@@ -30,6 +30,7 @@ func c16(c *Ctx) {
 	c16R5(c)
 	c16R6(c)
 	c16R7(c)
+	c16R8(c)
 }
 
 func c16R1(c *Ctx) {
